@@ -66,12 +66,16 @@ func (p *Parser) ParseFunctionParameters() []*ast.Identifier {
 		p.NextToken()
 		return identifiers
 	}
-	p.NextToken()
+	if !p.ExpectToken(token.IDENT) {
+		return nil
+	}
 	ident := &ast.Identifier{Token: p.CurrentToken, Value: p.CurrentToken.Literal}
 	identifiers = append(identifiers, ident)
 	for p.PeekToken.Type == token.COMMA {
 		p.NextToken()
-		p.NextToken()
+		if !p.ExpectToken(token.IDENT) {
+			return nil
+		}
 		ident := &ast.Identifier{Token: p.CurrentToken, Value: p.CurrentToken.Literal}
 		identifiers = append(identifiers, ident)
 	}
